@@ -4,7 +4,7 @@ from __future__ import annotations
 import ast
 import itertools
 
-from ..absbase import FinamInterp, Logger, Order, Ref
+from ..absbase import Vec,  FinamInterp, Logger, Order, Ref
 from ..astq import U, call_name, calls, fn_walk, self_attr, walk
 from ..cfg import CFG
 from ..interp import Closure, Obj, Raised, Sym, Undecided
@@ -22,20 +22,33 @@ class _UnitsInterp(FinamInterp):
         super().__init__(repo)
         self.compatible, self.equivalent = compatible, equivalent
         self.conversions = 0
-        self.cache = {}
         self.close_args = []
 
-    def global_name(self, name, mod):
-        if name == "_UNIT_PAIRS_CACHE":
-            return self.cache
-        return super().global_name(name, mod)
+    @property
+    def cache(self):
+        """Entries of the module-level memo(s) of the units module, wherever they are kept (a dict, or a dict inside a
+        module-level helper object): role discovery, no name."""
+        out = {}
+        for v in self.__dict__.get("_module_values", {}).values():
+            for d in ([v] if isinstance(v, dict) else [x for x in v.fields.values() if isinstance(x, dict)] if isinstance(v, Obj) else []):
+                for k, val in d.items():
+                    out[k] = val
+        return out
+
+    def ext_isinstance(self, v, name, node):
+        short = name.split(".")[-1]
+        if short == "Unit":
+            return isinstance(v, Sym) and v.op == "unit"
+        if short == "Quantity":
+            return isinstance(v, Sym) and v.op == "qty"
+        return super().ext_isinstance(v, name, node)
+
+    def decide(self, cond, node):
+        if isinstance(cond, Sym) and cond.op == "unit":
+            return True
+        return super().decide(cond, node)
 
     def call_hook(self, fv, args, kwargs, node, mod):
-        if isinstance(fv, Closure) and getattr(fv.func, "name", "") == "_get_pint_units":
-            a = args[0]
-            if isinstance(a, Sym) and a.op == "qty":
-                return a.args[1]
-            return a
         if isinstance(fv, Closure) and getattr(fv.func, "name", "") in ("check_quantified",):
             return None
         if isinstance(fv, Sym) and fv.op == "unitmethod":
@@ -618,132 +631,12 @@ def _seed_after_exchange(repo, c, o, params):
 
 
 def r35_regrid(repo, sink):
+    """(coordinates, tree, pairing and the info exchange of both regridders: regrid2.r35x, end to end)"""
     if not repo.has_cls("ARegridding"):
         raise AnalysisError("ARegridding not found")
-    base = repo.cls("ARegridding")
-    gi, go = repo.resolve(base, "_get_in_coords", "method"), repo.resolve(base, "_get_out_coords", "method")
-    rep = "RegridNearest" if repo.has_cls("RegridNearest") else None
-    if rep is None:
-        raise AnalysisError("RegridNearest not found")
-
-    class _G(_RegridInterp):
-        def get_attr(self, obj, attr, node, mod):
-            if isinstance(obj, Obj) and obj.label in ("ingrid", "outgrid") and attr in obj.fields:
-                return obj.fields[attr]
-            return super().get_attr(obj, attr, node, mod)
-
-    def sel(points, mask, order):
-        return Sym("select", points, Sym("logical_not", Sym("ravel", mask, Sym("kw", "order", order))))
-
-    for masked in (True, False):
-        it = _G(repo, masked)
-        o = _regrid_obj(repo, rep)
-        try:
-            got_in = it.run(gi, [], self_obj=o)
-            got_out = it.run(go, [], self_obj=o)
-        except (Raised, Undecided) as exc:
-            raise AnalysisError(f"regrid coordinates outside vocabulary: {exc}") from exc
-        want_in = sel(Sym("IN_POINTS"), Sym("IN_MASK"), Sym("IN_ORDER")) if masked else Sym("IN_POINTS")
-        want_out = Sym("crs", sel(Sym("OUT_POINTS"), Sym("OUT_MASK"), Sym("OUT_ORDER")) if masked else Sym("OUT_POINTS"))
-        sink.check(got_in == want_in, "R35", f"coords:in:{'masked' if masked else 'unmasked'}", gi,
-                   ok="source coordinates = input grid data points (minus cells masked by the input mask, flattened in the input grid's order)",
-                   bad=f"source coordinates are {got_in!r}, expected {want_in!r}: coordinates and compressed data must use the same grid's order and mask")
-        sink.check(got_out == want_out, "R35", f"coords:out:{'masked' if masked else 'unmasked'}", go,
-                   ok="target coordinates = output grid data points (minus the output mask, output order), CRS-transformed",
-                   bad=f"target coordinates are {got_out!r}, expected {want_out!r}")
-    # nearest: data path and tree
-    c = repo.cls(rep)
-    gd = repo.resolve(c, "_get_data", "method")
-    it = _G(repo, True)
-    o = _regrid_obj(repo, rep)
-    got = it.run(gd, [Sym("t"), Sym("target")], self_obj=o)
-    want = Sym("fc", Sym("select", Sym("tc", Sym("pulled", Sym("t"), Sym("target")), Sym("IN_ORDER"), None), Sym("IDS")),
-               Sym("OUT_SHAPE"), Sym("OUT_ORDER"), Sym("OUT_MASK"))
-    sink.check(got == want, "R35", "pairing:RegridNearest._get_data", gd,
-               ok="nearest: source data compressed in the input grid's order, picked by ids, expanded with output shape / order / mask",
-               bad=f"RegridNearest._get_data computes {got!r}, expected {want!r}")
-    sink.check(any(e[0] == "checked" for e in it.effects), "R35", "masked-input-check:RegridNearest", gd,
-               ok="masked input without declared mask is refused", bad="masked input data is no longer checked against the declared mask")
-    ug = repo.resolve(c, "_update_grid_specs", "method")
-    it = _G(repo, True)
-    o = _regrid_obj(repo, rep)
-    try:
-        it.run(ug, [], self_obj=o)
-        ids = o.fields["ids"]
-        want_ids = Sym("select", Sym("query", Sym("tree", sel(Sym("IN_POINTS"), Sym("IN_MASK"), Sym("IN_ORDER"))),
-                                      Sym("crs", sel(Sym("OUT_POINTS"), Sym("OUT_MASK"), Sym("OUT_ORDER")))), 1)
-        sink.check(ids == want_ids, "R35", "tree:RegridNearest", ug, ok="KD-tree over source coordinates, queried with the target coordinates, indices kept",
-                   bad=f"ids = {ids!r}, expected {want_ids!r}")
-    except Raised as r:
-        if r.name == "FinamMetaDataError":
-            sink.unknown("R35", "tree:RegridNearest", ug, "dimension check raised on the abstract grids")
-        else:
-            raise
-    # identical grid on both sides with a masked source: nearest still has to fill the masked cells
-    class _Same(_G):
-        def call_hook(self, fv, args, kwargs, node, mod):
-            if isinstance(fv, Closure) and getattr(fv.func, "name", "") == "_need_mask":
-                return args[0] == Sym("IN_MASK")
-            return super().call_hook(fv, args, kwargs, node, mod)
-
-        def compare(self, op, left, right, node):
-            if isinstance(left, Obj) and isinstance(right, Obj) and isinstance(op, (ast.Eq, ast.NotEq)):
-                r = left is right
-                return r if isinstance(op, ast.Eq) else not r
-            return super().compare(op, left, right, node)
-
-    it = _Same(repo, True)
-    o = _regrid_obj(repo, rep)
-    o.fields["output_grid"] = o.fields["input_grid"]
-    o.fields["output_mask"] = Sym("enum", "Mask", "NONE")
-    try:
-        it.run(ug, [], self_obj=o)
-        ids = o.fields["ids"]
-        got = it.run(gd, [Sym("t"), Sym("target")], self_obj=o)
-        ok = ids is not None and _has_op(ids, "query") and isinstance(got, Sym) and got.op == "fc" and _has_op(got, "select")
-        sink.check(ok, "R35", "same-grid-masked-source", ug,
-                   ok="same grid on both sides, masked source, unmasked target: the nearest unmasked source cell is still looked up",
-                   bad=f"same grid on both sides with a masked source: ids={ids!r}, delivered {got!r}: masked source cells are passed "
-                       "through instead of taking the nearest unmasked value")
-    except Raised as r:
-        sink.unknown("R35", "same-grid-masked-source", ug, f"raises {r.name}")
     _regrid_linear_mask(repo, sink)
-    # linear: structural pairing (its data path is numeric; decided only as far as order / shape / mask arguments go)
-    if repo.has_cls("RegridLinear"):
-        cl = repo.cls("RegridLinear")
-        gd = repo.resolve(cl, "_get_data", "method")
-        tcs = [x for x in calls(gd.node, "to_compressed")]
-        fcs = [x for x in calls(gd.node, "from_compressed")]
-        if not fcs:
-            sink.unknown("R35", "pairing:RegridLinear._get_data", gd, "no from_compressed call")
-        else:
-            ok = True
-            for x in tcs:
-                ok = ok and {k.arg: U(k.value) for k in x.keywords}.get("order") == "self.input_grid.order"
-            for x in fcs:
-                kws = {k.arg: U(k.value) for k in x.keywords}
-                ok = ok and kws.get("shape") == "self.output_grid.data_shape" and kws.get("order") == "self.output_grid.order" and kws.get("mask") == "self.output_mask"
-            fl = [x for x in calls(gd.node, "flatten")]
-            for x in fl:
-                ok = ok and {k.arg: U(k.value) for k in x.keywords}.get("order") == "self.input_grid.order"
-            sink.check(ok, "R35", "pairing:RegridLinear._get_data", gd,
-                       ok="linear: source flattened in the input grid's order, result expanded with output shape / order / mask",
-                       bad="RegridLinear._get_data pairs data with another grid's order / shape / mask than its coordinates")
-        ug = repo.resolve(cl, "_update_grid_specs", "method")
-        t = U(ug.node)
-        if "KDTree(" in t:
-            ok = "KDTree(self._get_in_coords()" in t and "self.fill_ids = tree.query(out_points)[1]" in t and "out_points = self.out_coords[self.out_ids]" in t
-            sink.check(ok, "R35", "tree:RegridLinear-fill", ug, ok="nearest fill ids index the same compressed source array as the tree",
-                       bad="fill ids of RegridLinear do not come from a tree over the source coordinates queried at the uncovered targets")
-    # output side compares its own grid spec with the requested one (layout sensitive); delivered info
-    g = repo.resolve(base, "_get_info", "method")
-    sink.check("self.output_grid != info.grid" in U(g.node) or "self.output_grid == info.grid" in U(g.node), "R35", "out-grid-compared", g,
-               ok="a given out_grid is compared (layout sensitive) with the requested grid",
-               bad="a user-given out_grid is no longer compared with the consumer's grid")
-    ret = [r for r in fn_walk(g.node) if isinstance(r, ast.Return)]
-    ok = len(ret) == 1 and isinstance(ret[0].value, ast.Call) and call_name(ret[0].value) == "copy_with" and \
-        {k.arg: U(k.value) for k in ret[0].value.keywords} == {"grid": "self.output_grid", "mask": "self.output_mask"}
-    sink.check(ok, "R35", "delivered-info", g, ok="delivers the source info with output grid and output mask", bad="regridder does not deliver (output grid, output mask)")
+    # (the linear regridder's pairing, the comparison of a user-given output grid with the requested one and the delivered
+    #  info are decided end to end by regrid2.r35x: abstract runs of get_info / _update_grid_specs / _get_data)
 
 
 def _has_op(v, op):
@@ -932,6 +825,32 @@ def r15_fields(repo, sink):
     sink.check(worst is None, "R15", "accepts-table", acc,
                ok=f"{cases} cases: every incompatible field is recorded and clears the result; unset fields are tolerated only from downstream",
                bad=worst or "")
+    # the mask rule is consulted for every kind of own mask specification (flexible, none, a fixed array): only an unset mask is
+    # left to the other side
+    FLEX, NONE_ = Sym("enum", "Mask", "FLEX"), Sym("enum", "Mask", "NONE")
+    kinds_bad = None
+    for kname, own in (("Mask.FLEX", FLEX), ("Mask.NONE", NONE_), ("a fixed mask array", Sym("maskarr", "A", True)), ("unset (None)", None)):
+        for iname, incoming in (("Mask.FLEX", FLEX), ("Mask.NONE", NONE_), ("a fixed mask array", Sym("maskarr", "B", True))):
+            for down in (False, True):
+                it = _InfoInterp(repo, {"grid": True, "mask": False, "units": True})
+                me = _info_obj(repo, G, own, Sym("unit", "a"))
+                inc = _info_obj(repo, G, incoming, Sym("unit", "a"))
+                fail = {}
+                try:
+                    got = it.run(acc, [inc, fail], {"incoming_donwstream": down}, self_obj=me)
+                except (Raised, Undecided, AnalysisError) as exc:
+                    kinds_bad = kinds_bad or f"own mask {kname}, incoming {iname}: {exc}"
+                    continue
+                consulted = bool(it.mask_calls)
+                if own is None:
+                    if consulted or not got:
+                        kinds_bad = kinds_bad or f"own mask unset, incoming {iname}: result {got}, mask rule consulted {consulted}; an unset mask accepts whatever comes"
+                elif not consulted or got or "mask" not in fail:
+                    kinds_bad = kinds_bad or (f"own mask {kname}, incoming {iname} from {'downstream' if down else 'upstream'}, mask rule says incompatible: accepts returns {got} "
+                                              f"(mask rule consulted: {consulted}, failed fields {sorted(fail)}); every mask specification - also Mask.NONE and Mask.FLEX - "
+                                              "is checked against the other side")
+    sink.check(kinds_bad is None, "R15", "accepts-mask-kinds", acc,
+               ok="the mask rule decides for flexible, unmasked and fixed own masks alike; only an unset mask accepts anything", bad=kinds_bad or "")
     if pairing == 0:
         sink.unknown("R37", "mask-grid-pairing:accepts", acc, "Info.accepts never reached masks_compatible in the abstract runs")
     else:
@@ -944,48 +863,10 @@ def r15_fields(repo, sink):
 
 
 def r16_getinfo(repo, sink):
-    ad = repo.cls("Adapter")
-    n = 0
-    for c in repo.subclasses(ad):
-        f = c.methods.get("_get_info")
-        if f is None:
-            continue
-        n += 1
-        cfg = CFG(f.node)
-        ex = [x for x in calls(f.node, "exchange_info") if isinstance(x.func, ast.Attribute) and self_attr(x.func)]
-        nodes = [cfg.node_of(x) for x in ex]
-        # every non-raising path passes exactly one exchange: none avoids all call sites, none reaches a second one
-        once = bool(ex) and not cfg.reachable(cfg.entry, cfg.exit, avoid=nodes) and not any(cfg.in_loop(n) for n in nodes) \
-            and not any(a is not b and cfg.reachable(a, b) for a in nodes for b in nodes)
-        sink.check(once, "R16", f"exchange-once:{c.name}", f, ok="exchange_info is called exactly once on every non-raising path",
-                   bad=f"{c.name}._get_info does not call exchange_info exactly once on every path: upstream never learns the request")
-        if not ex:
-            continue
-        # request derived from the incoming info
-        p0 = f.params[0]
-        derived = all(x.args and _derives_from(f, x.args[0], {p0}) for x in ex)
-        sink.check(derived, "R16", f"request-from-info:{c.name}", f, ok="the upstream request is derived from the incoming info",
-                   bad=f"{c.name}._get_info sends a request that does not derive from the consumer's info")
-        res, ex_stmts = set(), []
-        for x in ex:
-            st = x
-            while not isinstance(st, ast.stmt):
-                st = st._parent
-            ex_stmts.append(st)
-            if isinstance(st, ast.Assign):
-                res |= {t.id for t in st.targets if isinstance(t, ast.Name)}
-        rets = [r for r in fn_walk(f.node) if isinstance(r, ast.Return) and r.value is not None]
-        ok = bool(rets)
-        for r in rets:
-            if any(isinstance(st, ast.Return) and r is st for st in ex_stmts):
-                continue
-            ok = ok and _derives_from(f, r.value, res, stop={p0}) and not (isinstance(r.value, ast.Name) and r.value.id == p0)
-        sink.check(ok, "R16", f"returns-exchange-result:{c.name}", f, ok="the delivered info derives from the exchange result",
-                   bad=f"{c.name}._get_info returns something that does not derive from what the source delivered (e.g. the request itself)")
-    sink.floor("R16", "_get_info implementations", n, 6)
-    # Adapter.get_info / exchange_info plumbing: abstract runs (rules/exchange.py)
+    """The adapters' side of the metadata exchange, by abstract runs of the public get_info() of every concrete adapter and of
+    the Adapter / TimeDelayAdapter plumbing (rules/exchange.py): no call site or statement shape is matched."""
     from . import exchange
-    exchange.run(repo, sink, (exchange.r16x_adapter_plumbing,))
+    exchange.run(repo, sink, (exchange.r16x_adapter_get_info, exchange.r16x_adapter_plumbing))
 
 
 def _derives_from(f, expr, roots, stop=(), depth=0):
@@ -1149,6 +1030,17 @@ class _GridCompat(FinamInterp):
 
     def ext_call(self, name, args, kwargs, node):
         short = name.split(".")[-1]
+        if short in ("allclose", "isclose", "array_equal") and all(isinstance(a, (tuple, list, int, float)) and not isinstance(a, bool) for a in args[:2]):
+            # concrete coordinate vectors / numbers (exactly representable): close iff equal, entry by entry
+            a, b = args[0], args[1]
+            if isinstance(a, (tuple, list)) != isinstance(b, (tuple, list)):
+                a = a if isinstance(a, (tuple, list)) else [a] * len(b)
+                b = b if isinstance(b, (tuple, list)) else [b] * len(a)
+            if isinstance(a, (tuple, list)):
+                if len(a) != len(b):
+                    self.on_raise(Sym("exc", "ValueError", "operands could not be broadcast together"), node)
+                return all(x == y for x, y in zip(a, b)) if short != "isclose" else Vec(x == y for x, y in zip(a, b))
+            return a == b
         if short == "allclose":
             if isinstance(args[0], Sym) and isinstance(args[1], Sym) and args[0].op == "axis":
                 return args[0] == args[1]
@@ -1203,7 +1095,7 @@ def r15g_gridcompat(repo, sink):
 
     def grid(dim=2, crs=None, loc="CELLS", rev=False, shape=(3, 2), label="grid", axes=None):
         o = Obj(cls=sg, label=label)
-        ax = axes or [Sym("axis", "x", 4), Sym("axis", "y", 3), Sym("axis", "z", 2)]
+        ax = axes or [Vec((0, 1, 2, 4)), Vec((0, 1, 3)), Vec((0, 5))]
         o.fields.update(dim=dim, crs=crs, data_location=Sym("enum", "Location", loc), axes_reversed=rev,
                         data_shape=shape, axes=ax[:dim])
         return o
@@ -1217,8 +1109,11 @@ def r15g_gridcompat(repo, sink):
         ("different data shape", {"shape": (4, 2)}, True, False),
         ("reversed axes order, transposed shape", {"rev": True, "shape": (2, 3)}, True, True),
         ("reversed axes order, same shape", {"rev": True, "shape": (3, 2)}, True, False),
-        ("only the x coordinates differ", {"axes": [Sym("axis", "x-shifted", 4), Sym("axis", "y", 3)]}, True, False),
-        ("only the y coordinates differ", {"axes": [Sym("axis", "x", 4), Sym("axis", "y-shifted", 3)]}, True, False),
+        ("only the x coordinates differ", {"axes": [Vec((1, 2, 3, 5)), Vec((0, 1, 3))]}, True, False),
+        ("only the y coordinates differ", {"axes": [Vec((0, 1, 2, 4)), Vec((0, 2, 4))]}, True, False),
+        ("same extent and node count, different interior nodes in x", {"axes": [Vec((0, 2, 3, 4)), Vec((0, 1, 3))]}, True, False),
+        ("same extent and node count, different interior nodes in y", {"axes": [Vec((0, 1, 2, 4)), Vec((0, 2, 3))]}, True, False),
+        ("one more node in x (shape of CELLS data differs too)", {"axes": [Vec((0, 1, 2, 3, 4)), Vec((0, 1, 3))], "shape": (4, 2)}, True, False),
     ]
     worst = None
     for name, delta, close, want in cases:
